@@ -1,0 +1,50 @@
+//go:build verif
+
+package font
+
+import "sort"
+
+// Exported wrappers of unexported functions, compiled only with -tags verif.
+// Add-only: nothing here is used by the library itself.
+
+// VerifParseCMapData exposes parseCMapData.
+func VerifParseCMapData(data []byte) (*CMap, error) { return parseCMapData(data) }
+
+// VerifHexToUnicode exposes hexToUnicode.
+func VerifHexToUnicode(hexStr string) (string, error) { return hexToUnicode(hexStr) }
+
+// VerifCMapDecodeUTF16BE exposes decodeUTF16BE of cmap.go.
+func VerifCMapDecodeUTF16BE(data []byte) (string, error) { return decodeUTF16BE(data) }
+
+// VerifParseHexToUint32 exposes parseHexToUint32.
+func VerifParseHexToUint32(hexStr string) (uint32, error) { return parseHexToUint32(hexStr) }
+
+// VerifCMapRange is one parsed bfrange entry.
+type VerifCMapRange struct {
+	Start, End, StartUnicode uint32
+	Units                    []uint16
+}
+
+// VerifCMapChar is one direct mapping.
+type VerifCMapChar struct {
+	Code uint32
+	Text string
+}
+
+// VerifCMapState returns the parsed state of a CMap: both byte widths, the
+// direct mappings sorted by code, and the ranges in parse order.
+func VerifCMapState(cm *CMap) (byteWidth, actualByteWidth int, chars []VerifCMapChar, ranges []VerifCMapRange) {
+	for c, t := range cm.charMappings {
+		chars = append(chars, VerifCMapChar{c, t})
+	}
+	sort.Slice(chars, func(i, j int) bool { return chars[i].Code < chars[j].Code })
+	for _, r := range cm.rangeMappings {
+		ranges = append(ranges, VerifCMapRange{r.StartCode, r.EndCode, r.StartUnicode, r.startUnits})
+	}
+	return cm.byteWidth, cm.actualByteWidth, chars, ranges
+}
+
+// VerifLookupStringWithWidth exposes lookupStringWithWidth.
+func VerifLookupStringWithWidth(cm *CMap, data []byte, width int) string {
+	return cm.lookupStringWithWidth(data, width)
+}
